@@ -58,6 +58,9 @@ def type_to_dict(typ: type) -> TypeDict:
     """
     if is_typed_dict(typ):
         return typed_dict_to_dict(typ)
+    if typ is Ellipsis:
+        # Second argument of the homogeneous tuple type Tuple[T, ...]
+        return {"module": "builtins", "qualname": "Ellipsis"}
 
     # Union and Any are special cases that aren't actually types.
     if is_union(typ):
@@ -108,6 +111,8 @@ def type_from_dict(d: TypeDict) -> type:
     module, qualname = d["module"], d["qualname"]
     if d.get("is_typed_dict", False):
         return typed_dict_from_dict(d)
+    if module == "builtins" and qualname == "Ellipsis":
+        return Ellipsis  # type: ignore[return-value]
     if module == "builtins" and qualname in _HIDDEN_BUILTIN_TYPES:
         typ = _HIDDEN_BUILTIN_TYPES[qualname]
     else:
